@@ -128,6 +128,28 @@ CLAIMS = {
                 "triangle relations modulo algebra. It does NOT decide astropy's transforms or ephemerides.",
         "technique": "value-flow graph + length-class typing, truth-table predicates, polynomial normal form, unit inference",
     },
+    "C14": {
+        "text": "Decides on the inlined graph of compute() (both geometry modes, both channels): decorator column names "
+                "match return arity and every returned value is stored under its name; every stage records through the "
+                "staged writer; every stored column has the population of the geometry stage's surviving selection; "
+                "each channel writes exactly its four keywords and its own columns under its switch; 25 wiring pairs "
+                "consumer-parameter <- producer-column; the zero-survivor early return dominates all later stages; "
+                "channel isolation (no dependence on the other channel's switch/settings, first block draws no random "
+                "numbers, shared columns independent of the switches, shared integral rebinds no state); all random "
+                "draws are numpy.random.<fn> legacy-global draws, none in the worker closure. It does NOT decide "
+                "bit-identity of the written file or behaviour over the configuration cross product.",
+        "technique": "value-flow graph of compute() + effect census with path conditions, dependence sets, "
+                     "length-class typing per mode, package-wide AST census of random sources",
+    },
+    "C17": {
+        "text": "Decides ownership / pairing / ordering: the results table is mutated only in the staged writer's "
+                "methods; each writer invocation mutates then rewrites the whole file exactly once (same table, "
+                "output_file, format fits, overwrite=True) under write_stages; every file-output effect below "
+                "compute() is that guarded write (nothing else writes, removes or renames); the storing wrapper calls "
+                "the stage once, stores all its values after it returned and returns them unchanged; no handler "
+                "swallows a stage failure. It does NOT decide atomicity of a single Table.write.",
+        "technique": "effect ordering and control dependence on the inlined graph of compute(); AST shape of the wrapper",
+    },
 }
 
 NOT_APPLICABLE = {
